@@ -203,6 +203,11 @@ func (r *FnRun) loadTyped(st *State, t types.Type, path string, rd func(path str
 		st.ranged[tm.S] = true
 		r.assume(And(Le(IntLit(0), tm), Le(tm, st.top)))
 	}
+	if _, ok := under(t).(*types.Map); ok && tm.Sort == SInt && !st.ranged["mpb:"+tm.S] {
+		// a map stored in memory was made earlier
+		st.ranged["mpb:"+tm.S] = true
+		r.assume(Le(tm, st.top))
+	}
 	if _, ok := under(t).(*types.Interface); ok && tm.Sort == SInt && !st.ranged["ifb:"+tm.S] {
 		// an interface value stored in memory was made earlier
 		st.ranged["ifb:"+tm.S] = true
